@@ -76,6 +76,7 @@ Proof.
   intros H. cbn [assoc]. destruct (str_eqb op b) eqn:Eb, (str_eqb op a) eqn:Ea; try reflexivity.
   apply str_eqb_eq in Eb, Ea. congruence.
 Qed.
+Print Assumptions assoc_swap.
 Theorem C13_registrations_of_distinct_names_commute : forall st a b ca ha cb hb fa fb, a <> b ->
   (let s1 := reg_infix (reg_infix st a ca ha) b cb hb in let s2 := reg_infix (reg_infix st b cb hb) a ca ha in
    (forall op, assoc op (r_infix (s_regs s1)) = assoc op (r_infix (s_regs s2))) /\
